@@ -291,7 +291,9 @@ class PointTier(textgrid_tier.TextgridTier):
                 elif point.time > end:
                     newEntries.append(Point(point.time - diff, point.label))
 
-            newMax = newTier.maxTimestamp - diff
+            # The shrunk span can never end before the erased region began
+            # (the subtraction may round below it)
+            newMax = max(start, newTier.maxTimestamp - diff)
             newTier = newTier.new(entries=newEntries, maxTimestamp=newMax)
 
         return newTier
